@@ -154,9 +154,6 @@ def run(case):
                             for k, v in want.items():
                                 if norm(k, kw.get(k)) != norm(k, v):
                                     viol.append({"kind": "option_value_not_forwarded", "msg": f"{k}: API received {kw.get(k, '<absent>')!r}, command line says {v!r}", "facts": {"option": k}, "sub": sub})
-                            extra = set(kw) - set(want)
-                            if extra:
-                                viol.append({"kind": "unexpected_api_argument", "msg": f"{sorted(extra)}", "facts": {}, "sub": sub})
                             if not tables_equal(tskit.load(outp), rec["res"]):
                                 viol.append({"kind": "output_file_differs_from_api_result", "msg": "", "facts": {}, "sub": sub})
                     if sum(mask) >= 2:
